@@ -14,7 +14,10 @@ def bl_lock_text(n):
     return rl.bl.LOCK_HEADER + "next_reference_id: %d\n" % n
 
 
-EXTRA = {"notes.txt": "not a source file\n", "src/readme.md": "out of scope\n"}
+EXTRA = {"notes.txt": "not a source file\n", "src/readme.md": "out of scope\n",
+         # what editors, merges and killed tools leave next to the files Breadlog owns
+         "Breadlog.lock.tmp": "next_reference_id: 99\n", "Breadlog.lock.bak": "next_reference_id: 2\n", ".Breadlog.lock.swp": "b0VIM\n",
+         "Breadlog.yaml.orig": "source_dir: elsewhere\n", "src/f1.rs.tmp": "fn leftover() {}\n", "src/f1.rs.orig": "fn older() {}\n"}
 
 
 def tiered(cfg, tier):
@@ -297,6 +300,18 @@ def c01(tier):
             for cache, lock in ((None, None), (False, 2)):
                 scen_steps.append(rl.Scenario("head-" + hs, {"f1.rs": [S(11, ref=1), S(12, ref=7), S(13, ref=3)], "f2.rs": [S(21), S(22)]},
                                               lock=lock, use_cache=cache, structured=structured, head_style=hs))
+    # where the files are and how the macros are configured: existing IDs below directories a tool might want to skip
+    # (target, hidden, deep), and macro names configured under two modules with statements qualified either way
+    for structured in (False, True):
+        for cache, lock in ((None, None), (False, 2)):
+            scen_steps.append(rl.Scenario("nested-dirs", {"target/gen.rs": [S(11, ref=9)], ".hidden/h.rs": [S(12, ref=7)],
+                                                          "a/b/c/deep.rs": [S(13, ref=8)], "node_modules/x.rs": [S(14, ref=6)],
+                                                          "main.rs": [S(21), S(22)]},
+                                          lock=lock, use_cache=cache, structured=structured,
+                                          names=["target/gen.rs", ".hidden/h.rs", "a/b/c/deep.rs", "node_modules/x.rs", "main.rs"]))
+            scen_steps.append(rl.Scenario("two-modules", {"f1.rs": [S(11, ref=1), S(12, ref=5), S(13, ref=3), S(14, ref=7), S(15, ref=2), S(16, ref=6)],
+                                                          "f2.rs": [S(21), S(22), S(23), S(24)]},
+                                          lock=lock, use_cache=cache, structured=structured, head_style="twomodules"))
     # run them (one edit run each), in parallel
     import multiprocessing
     jobs = [{"binary": binary, "scen": sc, "steps": [("edit", "")], "follow": None} for sc in scen_steps]
@@ -381,6 +396,13 @@ def c02(tier):
         for name, text in LOCKS.items():
             sc = rl.Scenario("lock-" + name, {"f1.rs": [S(11), S(12, ref=3)], "f2.rs": [S(21), S(22)]}, lock=text, structured=structured)
             rl.planned_runs(binary, sc, [[("edit", "")]], batch, v, follow="c02", sigbase={"lock_text": name})
+    # faults, stop requests and kills in the SECOND run of a history: the first run has written IDs, the developer has deleted
+    # the highest-numbered statement and added others (so the code alone no longer tells which IDs were used)
+    for structured in ((False, True) if tier == "thorough" else (False,)):
+        sc = rl.Scenario("second-run", {"f1.rs": [S(11), S(12)], "f2.rs": [S(21)]}, lock=None, structured=structured)
+        K, n = rl.sweep(binary, sc, "edit", kinds, batch, v, follow="c02",
+                        pre_steps=[("edit", ""), ("devfn", "delete_highest_and_add", 7)])
+        log("[sweep] %s (second run of a history): %d operations, %d histories" % (sc.name, K, n))
     # a later run of a history (after the highest-numbered statement was deleted) cannot examine / open / read the lock
     for structured in (False, True):
         sc = rl.Scenario("lock-unreadable-later", {"f1.rs": [S(11), S(12)], "f2.rs": [S(21)]}, lock=None, structured=structured)
@@ -471,6 +493,12 @@ def c05(tier):
     # (c) rename failures: the printed count must be the number actually inserted
     for sc in rl.small_trees():
         rl.planned_runs(binary, sc, [[("edit", "op=rename,nth=1:errno=5")], [("edit", "op=rename,nth=0:errno=18")]], batch, v)
+    # an extension that is configured twice (literally, or in two letter cases) still means every file once
+    for structured in (False, True):
+        for exts in (["rs", "rs"], ["rs", "RS"], ["txt", "rs", "rs"]):
+            sc = rl.Scenario("ext-" + "-".join(exts), {"f1.rs": [S(11), S(12, ref=3)], "f2.rs": [S(21), S(22)]},
+                             structured=structured, extensions=exts)
+            rl.planned_runs(binary, sc, [[("check", ""), ("edit", ""), ("check", "")]], batch, v, sigbase={"extensions": ",".join(exts)})
     env_step(v, binary, batch, tier, follow="check")
     batch.judge(v, {"C05"})
     # (d) statement level: what precedes the statement on its line (multi-byte text, tabs), CRLF and multi-line layouts,
@@ -580,6 +608,9 @@ def c06(tier):
         rnd.shuffle(cases)
         cases = cases[:30000]
     cs.run_cases(binary, cases, v, {"C06"}, "roundtrip")
+    # ... and the directive files (a directive must govern the same statements before and after the edit)
+    dpacks, dsolo = cs.directive_packs(v, tier, cfg_tier="quick")
+    cs.run_cases(binary, None, v, {"C06"}, "directives-roundtrip", packs=dpacks, groups_extra=dsolo)
     v.cov["rule"] = ("check, edit, check, edit on model pre-states in both styles (second edit must change no byte and leave the lock "
                      "value), then lock removed + statement added + edit: the new ID must exceed every ID written before (read-back)")
     return v.finish()
